@@ -240,6 +240,48 @@ def all_cuts(ctx, mode, seq, with_handshake, case_base, double_limit, rng):
     return exhaustive
 
 
+def largest_message(ctx):
+    """The largest message the protocol allows - 2**27 bytes in all - and one 8 bytes shorter, each followed by a small
+    message, in one read and cut inside the fixed header: delivered like any other."""
+    from harness import ref_message as RM
+    import hashlib
+    small = RM.build(4, 91, {'path': '/a', 'member': 'After', 'interface': 'a.b'}, 's', ['after'], True)
+    for total in (2 ** 27, 2 ** 27 - 8):
+        probe = RM.build(4, 90, {'path': '/a', 'member': 'Big', 'interface': 'a.b'}, 's', [''], True)
+        fill = total - len(probe)
+        text = 'x' * fill
+        raw = RM.build(4, 90, {'path': '/a', 'member': 'Big', 'interface': 'a.b'}, 's', [text], True)
+        if len(raw) != total:
+            ctx.require(False, 'could not build a message of exactly %d bytes (got %d)' % (total, len(raw)))
+            return
+        for cuts in ([], [9]):
+            ep = make('client')
+            for piece in CLIENT_HS:
+                ep.feed(piece)
+            stream = raw + small
+            for ch in simnet.chunks_of(stream, cuts):
+                if not ep.feed(ch):
+                    break
+            del stream
+            got = ep.proto.got
+            ctx.count('evaluations')
+            ctx.count('largest_message_runs')
+            case = {'kind': 'largest', 'total': total, 'cuts': cuts}
+            w = {'total_bytes': total, 'cuts': cuts, 'delivered': [(k, getattr(m, 'member', None)) for k, m in got],
+                 'closed': ep.t.disconnecting, 'crash': repr(ep.crashes[0]) if ep.crashes else None}
+            ok = (len(got) == 2 and not ep.crashes and not ep.t.disconnecting and got[0][1].member == 'Big'
+                  and got[1][1].member == 'After' and got[1][1].body == ['after']
+                  and isinstance(got[0][1].body, list) and len(got[0][1].body) == 1 and len(got[0][1].body[0]) == fill
+                  and got[0][1].body[0] == text)
+            ep.proto.got = []
+            if not ok:
+                ctx.report('largest-message', 'a message of %s bytes (%s) followed by a small one: delivered %r, closed=%s, '
+                           'crash=%s' % ('exactly 2**27' if total == 2 ** 27 else '2**27 - 8', 'one read' if not cuts else
+                                         'cut inside the fixed header', w['delivered'], w['closed'], w['crash']), w, case)
+                return
+        del raw, text
+
+
 def run(ctx):
     si, sn = ctx.shard or (0, 1)
     quick = ctx.tier == 'quick'
@@ -393,6 +435,8 @@ def run(ctx):
                     cuts = [c for c in cuts if 0 < c < hs + total]
                     run_partition(ctx, mode, seq, cuts, True, {'kind': 'big-hs', 'mode': mode, 'cuts': cuts})
                     ctx.count('handshake_coalesced_large')
+    if si == 0:
+        largest_message(ctx)
     s0 = make_sequence(ctx.seed, 0, 2, small=True)
     ctx.sample({'sequence_hex': [raw.hex() for raw, _, _ in s0], 'expected': [e for _, e, _ in s0],
                 'partitions': 'every single cut, every pair of cuts'})
@@ -412,6 +456,8 @@ def replay(ctx, rp):
         n = len(handshake_bytes(case['mode'])) + sum(len(r_) for r_, _, _ in seq)
         cuts = list(range(1, n)) if case['cuts'] == 'bytewise' else case['cuts']
         run_partition(ctx, case['mode'], seq, cuts, True, case)
+    elif kind == 'largest':
+        largest_message(ctx)
     elif kind == 'two-receivers':
         from checks.c20 import two_receivers
         two_receivers(ctx, seed, case['idx'])
